@@ -23,6 +23,8 @@ type Raw struct {
 	Host    string      // Host header
 	Headers [][2]string // name (casing preserved), value; one line per element
 	Body    []byte
+	// Chunked: send the body with chunked transfer encoding instead of a content length
+	Chunked bool
 	// LocalAddr is the source address of the connection, e.g. "127.0.0.9" or "::1".
 	LocalAddr string
 }
@@ -82,12 +84,31 @@ func Send(addr string, r Raw) (*Resp, error) {
 		fmt.Fprintf(&buf, "%s: %s\r\n", h[0], h[1])
 	}
 
-	if r.Body != nil {
+	switch {
+	case r.Body != nil && r.Chunked:
+		buf.WriteString("Transfer-Encoding: chunked\r\n")
+	case r.Body != nil:
 		fmt.Fprintf(&buf, "Content-Length: %d\r\n", len(r.Body))
 	}
 
 	buf.WriteString("Connection: close\r\n\r\n")
-	buf.Write(r.Body)
+
+	if r.Body != nil && r.Chunked {
+		const piece = 60000
+
+		for rest := r.Body; len(rest) > 0; {
+			n := min(piece, len(rest))
+			fmt.Fprintf(&buf, "%x\r\n", n)
+			buf.Write(rest[:n])
+			buf.WriteString("\r\n")
+
+			rest = rest[n:]
+		}
+
+		buf.WriteString("0\r\n\r\n")
+	} else {
+		buf.Write(r.Body)
+	}
 
 	if _, err = conn.Write(buf.Bytes()); err != nil {
 		return nil, err
